@@ -477,7 +477,7 @@ Proof. intros types dirs possible d H. unfold validateDefinition in H. repeat (a
 
 Theorem loaded_input_fields_unique : forall sd s, validateSchemaDocument sd = Some s -> input_fields_unique s.
 Proof.
-  intros sd s H. destruct (vsd_inv sd s H) as (types0 & types & order & dirs & q' & m' & s' & sdirs & desc & Ead & Eme & Edi & Hdefs & Hdirs & Hq' & Hm' & Hs' & Hs).
+  intros sd s H. destruct (vsd_inv sd s H) as (types0 & types & order & dirs & q' & m' & s' & sdirs & desc & Ead & Eme & Edi & Hdefs & Hdirs & Hq' & Hm' & Hs' & Hobj & Hs).
   subst s. intros n def Hl Hk. unfold stype in Hl. cbn [sc_types] in Hl.
   assert (Hcase : exists d0, lookup n types = Some d0 /\ (def = d0 \/ def = with_introspection d0)).
   { unfold final_types in Hl. destruct q' as [qn|]; [|exists def; split; [exact Hl|left; reflexivity]].
